@@ -3,6 +3,7 @@
 from __future__ import annotations
 
 import ast
+import re as _re
 
 from ..core import AnalysisError, Check, norm, strip_docstring
 from ..interp import Sym, SymInterp
@@ -115,6 +116,22 @@ class C16(Check):
             last = norm(gens[-1].iter)
             bound_before = {n_.id for g in gens[:-1] for n_ in ast.walk(g.target) if isinstance(n_, ast.Name)}
             inner_ok = last.startswith("isotopomers[") and last[len("isotopomers["):-1] in bound_before and norm(lc.elt) == norm(gens[-1].target) and not any(g.ifs for g in gens)
+            # multiplicity: the outermost source lists a species as often as its coefficient says
+            src0 = norm(gens[0].iter)
+            multi = None
+            if "_stoichiometry_to_duplicate_list(" in src0 or ".elements()" in src0:
+                multi = True
+            elif len(gens) >= 3 and any("range(" in norm(g.iter) or "repeat(" in norm(g.iter) for g in gens[1:-1]):
+                multi = True
+            elif _re.fullmatch(r"_unpack_stoichiometries\(.*\)\[[01]\](\.keys\(\))?", src0) or _re.fullmatch(r"(list|tuple|sorted)\(_unpack_stoichiometries\(.*\)\[[01]\]\)", src0):
+                multi = False
+            if multi is False:
+                self.violated("X4", LIN, q, f"multiplicity-{side}", anchor4, f"the species of one side are taken from `{src0[:70]}`, each once: a species with coefficient 2 contributes its label positions only once",
+                              witness="2 A -> B (A with one position, B with two): the second B position is fed by the external pool instead of the second A")
+            elif multi is True:
+                self.holds("X4", LIN, q, f"multiplicity-{side}", anchor4, "each species is listed once per unit of its coefficient before its positions are laid out")
+            else:
+                self.undecided_ob("X4", LIN, q, f"multiplicity-{side}", anchor4, f"how `{src0[:70]}` lists repeated species was not recognised")
             if inner_ok:
                 self.holds("X4", LIN, q, f"expansion-{side}", anchor4, "occurrences (coefficient copies) in the outer loops, positions innermost")
             else:
@@ -189,6 +206,14 @@ class C16(Check):
         # identical positions produce nothing
         same_skipped = all(not any(e_[0] == "call" and e_[1].startswith("m.add_reaction(") for e_ in st.events)
                            for st in paths2 if (f"{SRC} == {DST}", True) in st.conds or (f"{SRC} != {DST}", False) in st.conds)
+        eq_paths = [st for st in paths2 if (f"{SRC} == {DST}", True) in st.conds or (f"{DST} == {SRC}", True) in st.conds or (f"{SRC} != {DST}", False) in st.conds]
+        adding_unchecked = [st for st, _ in adds if not any(c in (f"{SRC} == {DST}", f"{DST} == {SRC}", f"{SRC} != {DST}", f"{DST} != {SRC}") for c, _ in st.conds)]
+        if eq_paths and same_skipped and not adding_unchecked:
+            self.holds("X2", LIN, q, "identity-pairs-skipped", pl, "a position that is carried onto itself creates no reaction")
+        else:
+            self.violated("X2", LIN, q, "identity-pairs-skipped", pl, "a position that the map carries onto itself still gets a transfer reaction: its two stoichiometry entries share one key, "
+                          "the second (+1/pool) overwrites the first, and the position gains label out of nothing",
+                          witness="A + B -> A + C with A mapped onto itself: A's enrichment grows with the flux although nothing is transferred")
         for side, want, POS in (("substrate", -1 / a0, SRC), ("product", 1 / a0, DST)):
             bad = None
             seen = False
